@@ -94,6 +94,13 @@ fn depth1(leaves: &[&str]) -> Vec<String> {
         v.push(format!("if true then {} else 2", a));
         v.push(format!("if false then 1 else {}", a));
         v.push(format!("if nil then 1 elseif {} then 2 else 3", a));
+        // an unknown first condition: every later condition and result still counts
+        v.push(format!("if g then 1 elseif {} then 2 else 3", a));
+        v.push(format!("if g then {} else 2", a));
+        v.push(format!("if g then 1 else {}", a));
+        v.push(format!("if l then 1 elseif g then {} else 3", a));
+        v.push(format!("if l then 1 elseif g then 2 else {}", a));
+        v.push(format!("if l then 1 elseif g then 2 elseif {} then 3 else 4", a));
     }
     v
 }
@@ -380,6 +387,7 @@ fn gen_random(t: &mut Tape, d: usize) -> String {
             format!("({} {} {})", a, BINARY[t.choose(BINARY.len())], b)
         }
         2 => format!("({}{})", UNARY[t.choose(3)], gen_random(t, d - 1)),
+        3 if t.bool(100) => format!("(if {} then {} elseif {} then {} else {})", gen_random(t, d - 1), gen_random(t, d - 1), gen_random(t, d - 1), gen_random(t, d - 1), gen_random(t, d - 1)),
         3 => format!("(if {} then {} else {})", gen_random(t, d - 1), gen_random(t, d - 1), gen_random(t, d - 1)),
         4 => format!("`a{{{}}}b{{{}}}`", gen_random(t, d - 1), gen_random(t, d - 1)),
         5 => format!("({} :: any)", gen_random(t, d - 1)),
